@@ -24,6 +24,9 @@ type c11case struct {
 	Tag    int
 	SrcLen int // misuse: short src/dst lengths
 	DstLen int
+	// Forged (open): one bit of the tag is flipped before the ciphertext is placed. The rejecting path must stay inside
+	// the same memory as the accepting one: no fault, nothing written behind the len(ciphertext)-tagSize bytes of output
+	Forged bool
 }
 
 var c11arena = map[string]*guard.Arena{}
@@ -74,6 +77,11 @@ func c11eval(r *vx.R, c c11case) {
 			r.Add("unsupported_on_this_path", 1)
 			return
 		}
+		if c.Forged {
+			sealed = append([]byte{}, sealed...)
+			sealed[len(sealed)-1-(c.PtLen%c.Tag)] ^= 1 << uint(c.PtLen%8)
+			shape += ":forged"
+		}
 		nonce := place("nonce", c.Arg, c.Side, "nonce", nonce0)
 		aad := place("aad", c.Arg, c.Side, "aad", aad0)
 		var in, want []byte
@@ -89,7 +97,9 @@ func c11eval(r *vx.R, c c11case) {
 			dst = place("dst", "dst", c.Side, "dst", d)[:0]
 		}
 		var roomy []byte
-		if c.Arg == "dstroomy" {
+		if c.Arg == "dstroomy" || (c.Forged && c.Arg != "dst") {
+			// (a forged message always gets a destination with canaries behind the output area: an overrun of the rejecting
+			// path is then seen in the canaries instead of damaging a neighbouring heap object of the driver)
 			// destination with 48 bytes more capacity than needed: what lies behind the result stays the caller's
 			roomy = bytes.Repeat([]byte{0xA5}, len(want)+48)
 			dst = roomy[:0]
@@ -115,7 +125,19 @@ func c11eval(r *vx.R, c c11case) {
 			r.Violation("mem:"+c.Op+":panic", fmt.Sprintf("%s panicked on a valid call: %s", c.Op, msg), c)
 			return
 		}
-		if oerr != nil || !bytes.Equal(out, want) {
+		if c.Forged {
+			if oerr == nil {
+				r.Violation("mem:open:forged-accepted", fmt.Sprintf("Open accepted a ciphertext whose tag has one bit flipped (%d bytes, tag %d)", c.PtLen, c.Tag), c)
+			}
+			if roomy != nil {
+				for i := len(want); i < len(roomy); i++ {
+					if roomy[i] != 0xA5 {
+						r.Violation(fmt.Sprintf("mem:open:rejected-writes-behind-output:tag%d", c.Tag), fmt.Sprintf("a rejected Open wrote behind the %d bytes of its output area into the spare capacity of dst (first changed byte at offset %d, tag size %d)", len(want), i, c.Tag), c)
+						break
+					}
+				}
+			}
+		} else if oerr != nil || !bytes.Equal(out, want) {
 			r.Violation("mem:"+c.Op+":wrong-result", fmt.Sprintf("%s returned a wrong result with %s at the %s of mapped memory (err=%v)", c.Op, c.Arg, c.Side, oerr), c)
 		}
 		if roomy != nil && len(out) > 0 && &out[0] == &roomy[0] {
@@ -266,6 +288,10 @@ func TestVX_C11(t *testing.T) {
 		}
 		c11eval(r, c)
 		r.Sample(c)
+		if c.Op == "open" {
+			c.Forged = true
+			c11eval(r, c)
+		}
 	}
 	th := vx.Thorough()
 	for _, side := range []string{"tail", "head"} {
